@@ -30,10 +30,14 @@ def one_case(run, specs, op, transform=None):
     count_basis(run, specs)
     run.count(op)
     rep = {"case": op, "basis": core.describe_basis(specs),
-           "transform": None if transform is None else transform.tolist()}
+           "transform": None if transform is None else np.real(transform).tolist()}
+    if transform is not None and np.iscomplexobj(transform):
+        rep["transform_imag"] = np.imag(transform).tolist()
     ok = compare(run, op + "_integral", impl, model, tol, rep, op)
     if not ok:
         return False
+    if transform is not None and np.iscomplexobj(transform):
+        return ok           # T M T^T of a complex T is not Hermitian
     herm = np.abs(impl - np.conj(np.transpose(impl, (1, 0, 2))))
     if ok and np.any(herm > 2 * tol):
         idx = tuple(int(i) for i in np.unravel_index(np.argmax(herm - 2 * tol), herm.shape))
@@ -131,10 +135,23 @@ def check(run):
         t = random_transform(rng, sum(x.size for x in specs))
         run.count("transform")
         one_case(run, specs, rng.choice(["momentum", "angmom"]), t)
+    # complex transformations (orbitals with complex coefficients): the transformation acts on every index without conjugation,
+    # for all-Cartesian, all-pure and mixed bases, square and rectangular
+    for k in range(3 if run.tier == "quick" else 12):
+        specs = random_basis(rng, 2, 3, lmax=2, exp_hi=10.0)
+        specs = [s_.copy(sph=[False, True, bool(i % 2)][k % 3]) for i, s_ in enumerate(specs)]
+        nb = sum(x.size for x in specs)
+        t = random_transform(rng, nb, rect=bool(k % 2))
+        tc = t + 1j * np.array([[core.snap(rng.uniform(-1, 1), 10) for _ in range(nb)] for _ in range(t.shape[0])])
+        run.count("complex transform")
+        one_case(run, specs, ["momentum", "angmom"][k % 2], tc)
+        one_case(run, specs, ["angmom", "momentum"][k % 2], tc)
 
 
 def replay(run, rep):
     n0 = len(run.violations)
     t = rep.get("transform")
+    if t is not None and rep.get("transform_imag") is not None:
+        t = np.array(t) + 1j * np.array(rep["transform_imag"])
     one_case(run, specs_from(rep), rep["case"], None if t is None else np.array(t))
     return len(run.violations) == n0
